@@ -31,7 +31,7 @@ m = {
         "guard": "none (no hook in /repo: all annotation happens on scratch copies made from /repo's working tree on every run)",
         "enable": "n/a - checks copy /repo's working tree, insert contracts from /verif/contracts and run Verus as the compiler of the real crate",
         "baseline_off_cmd": "cd /repo && cargo test --workspace --no-fail-fast --offline",
-        "source_commits": [l.strip() for l in open(os.path.join(VERIF, "fix_commits.txt")) if l.strip()] if os.path.exists(os.path.join(VERIF, "fix_commits.txt")) else [],
+        "source_commits": [],
         "add_only": True,
     },
     "engines": [
@@ -39,7 +39,7 @@ m = {
     ],
     "checks": checks,
     "not_applicable": na,
-    "notes": "Technique family: contract-based deductive verification of the real code (Verus), bounded Kani stand-ins labelled as such. See DESIGN.md.",
+    "notes": "Technique family: contract-based deductive verification of the real code (Verus), bounded Kani stand-ins labelled as such. See DESIGN.md. No hook commit exists in /repo. Unguarded `fix:` commits in /repo (repairs of genuine defects, recorded in known_findings.json): " + ", ".join(l.strip() for l in open(os.path.join(VERIF, "fix_commits.txt")) if l.strip()) + ".",
 }
 json.dump(m, open(os.path.join(VERIF, "MANIFEST.json"), "w"), indent=1)
 print("MANIFEST.json: %d checks, %d not_applicable" % (len(checks), len(na)))
